@@ -622,3 +622,51 @@ def g_bigint(rng, tier):
     for k, r in enumerate(out):
         r["id"] = k + 1
     return out
+
+
+# --------------------------------------------------------------- C08 garbage
+
+def g_garbage(rng, tier):
+    """arbitrary bytes for integer / fraction: byte classes in run-structured strings + random bytes"""
+    q = tier == "quick"
+    out = []
+    classes = [48, 57, 58, 255, 0, 47, 49, 128, 208]       # '0' '9' ':' 0xFF NUL '/' '1' 0x80 0xD0
+    runlens = [1, 2, 19, 20, 21, 770, 2000]
+    exps = [0, 1, -1, 22, -22, 23, 37, 38, 308, 309, -342, -343, 0xfff, 0x1000, -0x1000, I32MAX, I32MIN, I32MAX - 1, I32MIN + 1, 5000, -5000]
+
+    def runs(nmax):
+        k = rng.randrange(0, nmax + 1)
+        return [{"d": [rng.choice(classes)], "n": rng.choice(runlens)} for _ in range(k)]
+
+    for _ in range(600 if q else 20000):
+        for fmt in ("f64", "f32"):
+            out.append({"fmt": fmt, "int": runs(3), "frac": runs(3), "exp": rng.choice(exps), "raw": True, "tag": "C08:runs"})
+    # digits mixed with single garbage bytes at critical positions
+    for pos in (0, 1, 18, 19, 20, 768, 769, 770):
+        for b in (0, 47, 58, 255):
+            ds = [rng.randrange(48, 58) for _ in range(800)]
+            ds[pos] = b
+            for fmt in ("f64", "f32"):
+                out.append({"fmt": fmt, "int": [{"d": ds, "n": 1}], "frac": [], "exp": -400, "raw": True, "tag": "C08:one-bad-byte"})
+                out.append({"fmt": fmt, "int": [], "frac": [{"d": ds, "n": 1}], "exp": 300, "raw": True, "tag": "C08:one-bad-byte"})
+    # leading / trailing zeros (precondition violations with valid digits)
+    for fmt in ("f64", "f32"):
+        for e in (0, -30, 30):
+            out.append({"fmt": fmt, "int": [{"d": [48], "n": 30}, {"d": [49], "n": 1}], "frac": [{"d": [48], "n": 25}], "exp": e, "raw": True, "tag": "C08:zeros"})
+            out.append({"fmt": fmt, "int": [{"d": [48], "n": 1}], "frac": [{"d": [48], "n": 19}, {"d": [49], "n": 1}], "exp": e, "raw": True, "tag": "C08:zeros"})
+    # random bytes, every value, lengths to 10^4
+    for _ in range(300 if q else 10000):
+        li = rng.choice([0, 1, 5, 19, 20, 100, 1000, 10000])
+        lf = rng.choice([0, 1, 5, 19, 20, 100, 1000, 10000])
+        mk_ = lambda n: [{"d": [rng.randrange(256) for _ in range(n)], "n": 1}] if n else []
+        out.append({"fmt": rng.choice(["f64", "f32"]), "int": mk_(li), "frac": mk_(lf), "exp": rng.choice(exps + [rng.randrange(-400, 400)]),
+                    "raw": True, "tag": "C08:random"})
+    # bytes that make the big integers as large as possible: 0xFF digits (value 207) in long runs
+    for n in (700, 769, 770, 1000, 5000):
+        for fmt in ("f64", "f32"):
+            out.append({"fmt": fmt, "int": [{"d": [255], "n": n}], "frac": [], "exp": 0, "raw": True, "tag": "C08:big"})
+            out.append({"fmt": fmt, "int": [], "frac": [{"d": [255], "n": n}], "exp": -300, "raw": True, "tag": "C08:big"})
+            out.append({"fmt": fmt, "int": [{"d": [255], "n": 19}], "frac": [{"d": [255], "n": n}], "exp": 280, "raw": True, "tag": "C08:big"})
+    for k, r in enumerate(out):
+        r["id"] = k + 1
+    return out
